@@ -531,7 +531,7 @@ class Grid(object):
             "xllcorner": self.xllcorner,
             "yllcorner": self.yllcorner,
             "dtype": np.dtype(self.dtype).str,
-            "nodata": str(self.nodata),
+            "nodata": repr(self.nodata.item()),
             "comment": self.comment
             }
 
